@@ -49,9 +49,10 @@ var domain = map[string][]string{
 	"c": {"", "z", "zz"},
 }
 
-// Domain enumerates every label set over the domain (36) plus the UTF-8 one.
+// Domain enumerates every label set over the domain (36) plus the UTF-8 one and the values / names of the
+// look-alike matcher pairs of the catalog.
 func Domain() []map[string]string {
-	out := []map[string]string{{"naïve·name": "ü"}}
+	out := []map[string]string{{"naïve·name": "ü"}, {"a": "~1"}, {"a": "=1"}, {"a=": "1"}, {"a": "~1", "b": "x"}}
 	for _, a := range domain["a"] {
 		for _, b := range domain["b"] {
 			for _, c := range domain["c"] {
@@ -127,8 +128,8 @@ func cloneSets(s [][]Matcher) [][]Matcher {
 }
 
 var flipOp = map[byte][]byte{'e': {'n', 'r', 'x'}, 'n': {'e', 'x', 'r'}, 'r': {'x', 'e', 'n'}, 'x': {'r', 'n', 'e'}}
-var otherName = map[string]string{"a": "c", "b": "a", "c": "b", "naïve·name": "a"}
-var otherValue = map[string]string{"1": "2", "2": "1", "x": "y", "y": "x", "z": "zz", "zz": "z", "x|y": "x|xy", "x.*": "y.*", ".+": "1", ".*z": ".*zz", "ü": "u", "": "x"}
+var otherName = map[string]string{"a": "c", "b": "a", "c": "b", "naïve·name": "a", "a=": "a"}
+var otherValue = map[string]string{"1": "2", "2": "1", "x": "y", "y": "x", "z": "zz", "zz": "z", "x|y": "x|xy", "x.*": "y.*", ".+": "1", ".*z": ".*zz", "ü": "u", "": "x", "~1": "1", "=1": "1"}
 var extraMatchers = []Matcher{{'e', "c", "z"}, {'e', "b", "x"}, {'n', "a", "2"}, {'r', "b", "x.*"}, {'e', "a", "1"}}
 
 // VaryKinds lists the minimal variations Vary can produce.
